@@ -329,8 +329,17 @@ func rollbackKey(db *NoKV.DB, reader *Reader, key []byte, startTs uint64) *pb.Ke
 		}
 		return nil
 	}
-	if err := db.DeleteVersionedEntry(kv.CFLock, key, lockColumnTs); err != nil && err != utils.ErrKeyNotFound {
+	// Only the lock of the transaction being rolled back may be removed: a lock
+	// held by another transaction lives until that transaction's own commit or
+	// rollback.
+	lock, err := reader.GetLock(key)
+	if err != nil {
 		return keyErrorRetryable(err)
+	}
+	if lock != nil && lock.Ts == startTs {
+		if err := db.DeleteVersionedEntry(kv.CFLock, key, lockColumnTs); err != nil && err != utils.ErrKeyNotFound {
+			return keyErrorRetryable(err)
+		}
 	}
 	if err := db.DeleteVersionedEntry(kv.CFDefault, key, startTs); err != nil && err != utils.ErrKeyNotFound {
 		return keyErrorRetryable(err)
